@@ -709,9 +709,19 @@ func (c *Ctx) namesParserRule(tab *aglTables) {
 			c.undecided("NAMES-PARSER", rootName, "table parser", ps.root.Pos(), "no function reachable from "+rootName+" reads lines with a bufio.Scanner: the rule cannot relate the parser to the embedded data")
 			continue
 		}
+		// the loop may sit in a helper that is handed the source and the body: the parser is then
+		// the function that opens the file and reaches the loop (ext_y7.go)
+		loopFn := fn
+		owner := c.loopOwnerY7(ps.root, loopFn)
+		if owner != nil {
+			fn = owner
+		}
 		fname := c.fname(fn)
 		for _, file := range ps.files {
-			m := c.newAfmReaderModel(fn)
+			m := c.newAfmReaderModel(loopFn)
+			if owner != nil {
+				m.fn, m.whole = owner, true
+			}
 			m.emptyState = true
 			m.params = map[int]sv{}
 			for i, p := range fn.Params {
